@@ -334,6 +334,7 @@ def complete_bar_keeps_the_meter(ctx, rule='METER/complete-bar-keeps-the-meter')
 def run(ctx):
   # location-independent analyses first: an anchored rule that gives up later must not mask them
   complete_bar_keeps_the_meter(ctx)
+  keys_in_range_accepted(ctx)
   repair_only_without_notes(ctx)
   from sa import pitfalls as _pf
   _pf.apply(ctx, 'PITFALL', [fi_ for q_, fi_ in sorted(ctx.P.module('musicxml_parser').all_functions.items()) if '<locals>' not in q_], ['case-folded-key'], {
@@ -356,6 +357,42 @@ def run(ctx):
   mi = ctx.P.module('musicxml_parser')
   for ci in sorted(mi.all_classes.values(), key=lambda c: c.qualname):
     state.check_instance_state(ctx, ci, 'STATE/per-object', mro=ctx.P.mro(ci)[1:] if hasattr(ctx.P, 'mro') else None)
+
+
+def keys_in_range_accepted(ctx, rule='KEY/every-key-in-range-accepted'):
+  """Location-independent: "keys -7..7" are all supported.  Every `if` in KeySignature._parse whose arm raises and whose test reads
+  nothing but the fifths count (`self.key`) and constants is folded for each of the fifteen keys; a key for which it folds to true
+  is refused although it is in the documented range (`abs(key) >= 7` for `> 7`).  Tests that read anything else are not sites."""
+  from sa import scenario
+  from fractions import Fraction
+  class _K(object):
+    def __init__(self, v):
+      self.v = Fraction(v)
+    def const_value(self):
+      return self.v
+  fi = ctx.func('musicxml_parser:KeySignature._parse')
+  fn = fi.node
+  cons = 'no key of -7..7 fifths is refused'
+  n = 0
+  for st in U.walk_stmts(fn):
+    if not (isinstance(st, ast.If) and any(isinstance(x, ast.Raise) for b in st.body for x in ast.walk(b))):
+      continue
+    atoms = [a for a in ast.walk(st.test) if isinstance(a, (ast.Attribute, ast.Name)) and not (isinstance(a, ast.Name) and a.id in ('abs', 'int', 'min', 'max', 'range', 'self'))]
+    if not atoms or any(norm_text(a) != 'self.key' for a in atoms if isinstance(a, ast.Attribute)) or any(isinstance(a, ast.Name) for a in atoms):
+      continue
+    refused = []
+    try:
+      for k in range(-7, 8):
+        if scenario.fold_numeric(st.test, {'self.key': _K(k)}):
+          refused.append(k)
+    except Exception:
+      continue
+    n += 1
+    ctx.ob(rule, fi, st, not refused, '`%s` is false for every key of -7..7' % norm_text(st.test)[:60] if not refused else
+           '`%s` is true for %s fifths: a key signature inside the documented range -7..7 raises instead of being read (the bound is off by one)' % (
+               norm_text(st.test)[:60], ', '.join('%+d' % k for k in refused)), construct=cons, definite=True)
+  if n == 0:
+    ctx.ob(rule, fi, fn, True, 'KeySignature._parse has no raise guarded by the fifths count alone', construct=cons)
 
 
 def zip_names(ctx):
